@@ -153,6 +153,10 @@ func WithClockProvider(clock Clock) ExponentialBackOffOpts {
 type systemClock struct{}
 
 func (t systemClock) Now() time.Time {
+	// verif seam (see verif_seam.go): with no hook installed this is upstream behaviour.
+	if VerifNow != nil {
+		return VerifNow()
+	}
 	return time.Now()
 }
 
